@@ -146,8 +146,12 @@ def make_plan(tree, seed, i, tier="quick"):
 
 
 def _write_fault(rng, mode, handled_only=False):
-    where = rng.choices(("permille", "first", "last_byte", "last_buffer", "boundary"), (0.4, 0.1, 0.1, 0.2, 0.2))[0]
+    where = rng.choices(("permille", "first", "last_byte", "last_buffer", "boundary", "from_end"), (0.3, 0.1, 0.05, 0.1, 0.15, 0.3))[0]
     f = {"op": "write", "where": where, "permille": rng.randrange(1000)}
+    if where == "from_end":
+        # the end of the output is where the text layer's last chunk, the buffer and the exit-time
+        # flushes interact; distances up to three text chunks
+        f["distance"] = rng.choice((1, 2, rng.randrange(1, 4096), rng.randrange(4096, 8192), rng.randrange(1, 3 * 8192)))
     if handled_only:
         f["kind"] = "short"
     else:
@@ -317,6 +321,15 @@ def sweep_variants(plan, twin, tier):
         out.append([{"op": "write", "where": "at_byte", "at_byte": at, "kind": "EIO", "persistent": False}])
         if mode != "unbuffered":
             out.append([{"op": "write", "where": "at_byte", "at_byte": at, "kind": "short"}])
+    # ... and a fine grid over the end of the output (the last text chunk and the one before it)
+    grid = (1, 64, 512, 1024, 2048, 3072, 4095, 4096, 4097, 4608, 5120, 6144, 7168, 8191, 8192, 8193, 9216, 12288, 16384) if tier == "quick" else tuple(range(1, 3 * 8192, 128))
+    for dist in grid:
+        if dist >= n:
+            continue
+        out.append([{"op": "write", "where": "from_end", "distance": dist, "kind": "ENOSPC", "persistent": True}])
+        out.append([{"op": "write", "where": "from_end", "distance": dist, "kind": "EIO", "persistent": False}])
+        if mode != "unbuffered":
+            out.append([{"op": "write", "where": "from_end", "distance": dist, "kind": "short"}])
     k = 24 if tier == "quick" else 200
     for j in range(k):
         pm = (1000 * j + 500) // k
